@@ -16,7 +16,14 @@ Kinds (statement i has kind kinds[i % len(kinds)]):
            the first member (inherited-WITH printers), union-level SETTINGS / FORMAT tails
   insert   INSERT ... SELECT, WITH ... INSERT ... SELECT, INSERT INTO FUNCTION, column lists, tails
   create   CREATE TABLE / VIEW / MATERIALIZED VIEW / DICTIONARY / DATABASE / FUNCTION / USER / ROLE ...
-  alter    ALTER TABLE with every command kind the parser knows
+           (column lists with several indexes / constraints / projections, column-level and inline
+           PRIMARY KEY incl. the empty one, ORDER BY with ASC / DESC and (), SETTINGS before and after
+           COMMENT and a second SETTINGS clause, window views with INNER ENGINE, several
+           authentication methods: the shapes the ddlcount enumeration of C04 reaches and a valid
+           statement can produce)
+  alter    ALTER TABLE with every command kind the parser knows (statistics kinds with arguments,
+           full column declarations in ADD / MODIFY COLUMN, ADD INDEX ... AFTER, IN PARTITION ID,
+           ALTER ... FORMAT)
   utility  SHOW*, DESCRIBE, EXPLAIN of all kinds, USE, SET, SYSTEM, OPTIMIZE, TRUNCATE, RENAME,
            EXCHANGE, GRANT/REVOKE, KILL, BACKUP/RESTORE, CHECK, ATTACH/DETACH, DROP*, EXISTS,
            UNDROP, transactions
@@ -784,17 +791,27 @@ def gen_insert(r):
 # ------------------------------------------------------------------------------------------
 # CREATE
 
+def stat_kinds(r):
+    """statistics kinds of ALTER ... ADD / MODIFY STATISTICS: plain and with arguments (ParserIdentifierWithOptionalParameters)"""
+    return ", ".join(r.pick(["tdigest", "uniq", "minmax", "countmin", "tdigest(5)", "countmin(1, 2)", "uniq(a + 1)",
+                             "tdigest('x', 2)"]) for _ in range(1 + r.below(3)))
+
+
 def column_decl(r):
     s = ident(r) + " " + data_type(r, ddl=True)
     if r.p(1, 12):
-        return s + " STATISTICS(" + r.pick(["tdigest", "uniq"]) + ")"
+        return s + " STATISTICS(" + r.pick(["tdigest", "uniq", "tdigest, uniq", "minmax, uniq, countmin"]) + ")"
     x = r.below(12)
     if x == 0:
         s += r.pick([" NULL", " NOT NULL"])
     if r.p(1, 4):
         s += " " + r.pick(["DEFAULT", "MATERIALIZED", "ALIAS"]) + " " + expr(r, 3, False)
+        if r.p(1, 12):
+            return s + " PRIMARY KEY"
     elif r.p(1, 20):
-        s += " EPHEMERAL"
+        s += " EPHEMERAL" + r.pick(["", "", " 'x'", " 0"])
+    elif r.p(1, 24):
+        return s + " PRIMARY KEY"
     if r.p(1, 6):
         s += " CODEC(" + ", ".join(r.pick(["ZSTD(3)", "LZ4", "Delta", "DoubleDelta", "NONE", "LZ4HC(9)", "T64",
                                             "Gorilla", "Delta(4)"]) for _ in range(1 + r.below(2))) + ")"
@@ -810,16 +827,20 @@ def column_decl(r):
 def columns_def(r):
     items = [column_decl(r) for _ in range(1 + r.below(4))]
     if r.p(1, 5):
-        items.append("INDEX " + r.pick(["i", "idx1"]) + " " + r.pick(["a", "a + 1", "(a, b)", "lower(name)"])
-                     + " TYPE " + r.pick(["minmax", "set(100)", "bloom_filter(0.01)", "ngrambf_v1(3, 256, 2, 0)",
-                                          "tokenbf_v1(256, 2, 0)"]) + r.pick(["", " GRANULARITY 4"]))
+        for _ in range(r.pick([1, 1, 1, 2, 3])):
+            items.append("INDEX " + r.pick(["i", "idx1", "j"]) + " " + r.pick(["a", "a + 1", "(a, b)", "lower(name)"])
+                         + " TYPE " + r.pick(["minmax", "set(100)", "bloom_filter(0.01)", "ngrambf_v1(3, 256, 2, 0)",
+                                              "tokenbf_v1(256, 2, 0)", "bloom_filter", "set(0)"]) + r.pick(["", " GRANULARITY 4"]))
     if r.p(1, 8):
-        items.append("CONSTRAINT " + r.pick(["c1", "chk"]) + r.pick([" CHECK ", " ASSUME "]) + expr(r, 3, False))
+        for _ in range(r.pick([1, 1, 2])):
+            items.append("CONSTRAINT " + r.pick(["c1", "chk"]) + r.pick([" CHECK ", " ASSUME "]) + expr(r, 3, False))
     if r.p(1, 8):
-        items.append("PROJECTION " + r.pick(["p", "proj"]) + " (SELECT " + r.pick(["a, count() GROUP BY a", "* ORDER BY a", "sum(b)", "a, b ORDER BY b", "a, sum(b) GROUP BY a"])
-                     + ")")
+        for _ in range(r.pick([1, 1, 2])):
+            items.append("PROJECTION " + r.pick(["p", "proj"]) + " (" + r.pick(["", "", "WITH 1 AS w "]) + "SELECT "
+                         + r.pick(["a, count() GROUP BY a", "* ORDER BY a", "sum(b)", "a, b ORDER BY b", "a, sum(b) GROUP BY a",
+                                   "a, b ORDER BY a, b", "a, b, c ORDER BY (a, b)"]) + ")")
     if r.p(1, 12):
-        items.append("PRIMARY KEY (" + r.pick(["a", "a, b"]) + ")")
+        items.append("PRIMARY KEY " + r.pick(["(a)", "(a, b)", "a", "()", "(a, b, c)"]))
     return "(" + ", ".join(items) + ")"
 
 
@@ -854,9 +875,10 @@ def engine_clause(r, full=True):
     if "MergeTree" in e and full:
         if r.p(1, 3):
             s += " PARTITION BY " + r.pick(["toYYYYMM(ts)", "a", "(a, toDate(ts))", "tuple()"])
-        s += " ORDER BY " + r.pick(["a", "(a, b)", "tuple()", "(a, toDate(ts), b)", "a DESC" if False else "id"])
+        s += " ORDER BY " + r.pick(["a", "(a, b)", "tuple()", "(a, toDate(ts), b)", "id", "a", "(a, b)", "()", "a DESC",
+                                    "(a, b DESC)", "(a DESC, b DESC)", "a ASC", "toDate(ts)", "(a)"])
         if r.p(1, 5):
-            s += " PRIMARY KEY " + r.pick(["a", "(a)", "id"])
+            s += " PRIMARY KEY " + r.pick(["a", "(a)", "id", "(a, b)", "()", "tuple()", "toDate(ts)"])
         if r.p(1, 8):
             s += " SAMPLE BY " + r.pick(["a", "intHash32(id)"])
         if r.p(1, 5):
@@ -894,9 +916,12 @@ def gen_create(r):
             return s + " " + engine_clause(r) + " AS " + select_with_union(r, 1, simple=True)
         s += " " + columns_def(r) + " " + engine_clause(r)
         if y == 3:
-            s += " AS " + select_core(r, 1, simple=True)
+            s += " AS " + select_core(r, 1, simple=True) + r.pick(["", "", "", " FORMAT Null"])
         elif r.p(1, 6):
-            s += " COMMENT " + string_lit(r)
+            # COMMENT, then possibly SETTINGS after it (the table's when the engine clause had none, else a second clause)
+            s += " COMMENT " + string_lit(r) + r.pick(["", "", " SETTINGS max_threads = 1"])
+        elif r.p(1, 12) and " SETTINGS " in s:
+            s += " AS SELECT 1 SETTINGS max_threads = 1"
         return s
     if x < 17:
         s = r.pick(["CREATE VIEW ", "CREATE OR REPLACE VIEW ", "CREATE VIEW IF NOT EXISTS "]) + r.pick(["v", "db.v"]) + oc
@@ -913,11 +938,17 @@ def gen_create(r):
                  + r.pick(["", " APPEND"]) + " TO dst"
         elif y < 4:
             s += " TO " + r.pick(["dst", "db.dst"]) + r.pick(["", " (a UInt8, b String)"])
+        elif y == 4:
+            s += r.pick(["", " REFRESH EVERY 1 HOUR"]) + " (a UInt8, b String) " + engine_clause(r) + r.pick(["", " COMMENT 'c'"])
         else:
             s += " " + engine_clause(r) + r.pick(["", " POPULATE"])
         return s + " AS " + select_core(r, 1, simple=not r.p(1, 3), force_from=True)
     if x < 24:
-        return "CREATE WINDOW VIEW " + ine + "wv TO dst AS SELECT count() FROM t GROUP BY " \
+        return "CREATE WINDOW VIEW " + ine + "wv" \
+               + r.pick([" TO dst", " TO dst", " INNER ENGINE Memory", " INNER ENGINE MergeTree ORDER BY a",
+                         " INNER ENGINE MergeTree ORDER BY (a, b)", " INNER ENGINE MergeTree() ORDER BY toDate(ts)",
+                         " TO dst INNER ENGINE Memory", " ENGINE = Memory", " INNER ENGINE AggregatingMergeTree ORDER BY tuple()"]) \
+               + " AS SELECT count() FROM t GROUP BY " \
                + r.pick(["tumble", "hop"]) + "(ts, INTERVAL 1 MINUTE" + r.pick(["", ", INTERVAL 5 MINUTE"]) + ")"
     if x < 27:
         s = "CREATE DATABASE " + ine + r.pick(["db", "`my db`", "d2"])
@@ -939,7 +970,9 @@ def gen_create(r):
                      " IDENTIFIED WITH plaintext_password BY 'p'", " IDENTIFIED WITH no_password",
                      " IDENTIFIED WITH double_sha1_hash BY 'abcd'", " IDENTIFIED WITH ssh_key BY KEY 'k' TYPE 'ssh-rsa'",
                      " IDENTIFIED WITH bcrypt_password BY 'p'", " IDENTIFIED WITH ldap SERVER 's'",
-                     " IDENTIFIED WITH kerberos REALM 'r'"])
+                     " IDENTIFIED WITH kerberos REALM 'r'",
+                     " IDENTIFIED WITH ssh_key BY KEY 'k1' TYPE 'ssh-rsa', KEY 'k2' TYPE 'ssh-ed25519'",
+                     " IDENTIFIED WITH plaintext_password BY 'a', bcrypt_password BY 'b'"])
         s += r.pick(["", " HOST LOCAL", " HOST IP '127.0.0.1'", " HOST ANY", " HOST NAME 'h'", " HOST LIKE '%.x'"])
         s += r.pick(["", " VALID UNTIL '2030-01-01'"])
         s += r.pick(["", " DEFAULT ROLE r", " DEFAULT ROLE ALL", " DEFAULT ROLE r1, r2"])
@@ -1006,7 +1039,7 @@ def alter_command(r):
     ine = r.pick(["", "", "IF NOT EXISTS "])
     ie = r.pick(["", "", "IF EXISTS "])
     inpart = r.pick(["", "", " IN PARTITION " + r.pick(["1", "202001", "'x'", "(1, 2)"])])
-    x = r.below(64)
+    x = r.below(960)
     forms = [
         lambda: "ADD COLUMN " + ine + c() + " " + data_type(r, ddl=True)
                 + r.pick(["", " DEFAULT " + expr(r, 3, False), " MATERIALIZED " + atom(r), " ALIAS a + 1", " CODEC(ZSTD)",
@@ -1079,6 +1112,26 @@ def alter_command(r):
         lambda: "DROP PARTITION (" + ", ".join(literal(r) for _ in range(1 + r.below(3))) + ")",
         lambda: "MODIFY TTL d + INTERVAL 1 MONTH RECOMPRESS CODEC(ZSTD(3)), d + INTERVAL 1 YEAR DELETE",
         lambda: "MATERIALIZE COLUMN " + c(),
+        # statistics kinds with arguments, several columns, IF [NOT] EXISTS
+        lambda: "ADD STATISTICS " + ine + r.pick(["a", "a, b", "a, b, c"]) + " TYPE " + stat_kinds(r),
+        lambda: "MODIFY STATISTICS " + r.pick(["a", "a, b"]) + " TYPE " + stat_kinds(r),
+        lambda: "ADD STATISTICS " + r.pick(["a", "a, b"]) + " TYPE " + r.pick(["tdigest(5)", "countmin(1, 2), uniq", "uniq, tdigest(5)"]),
+        lambda: r.pick(["DROP", "CLEAR", "MATERIALIZE"]) + " STATISTICS " + ie + r.pick(["a", "a, b", "a, b, c"]),
+        lambda: "MATERIALIZE STATISTICS ALL",
+        # full column declarations in ADD / MODIFY COLUMN
+        lambda: "ADD COLUMN " + ine + column_decl(r) + r.pick(["", "", " AFTER a", " AFTER `n.x`"]),
+        lambda: "MODIFY COLUMN " + ie + column_decl(r) + r.pick(["", "", " AFTER b"]),
+        lambda: "MODIFY COLUMN " + c() + " MODIFY SETTING " + r.pick(["a = 1, b = 2", "max_compress_block_size = 1, min_compress_block_size = 2"]),
+        lambda: "MODIFY COLUMN " + c() + " RESET SETTING " + r.pick(["a, b", "max_compress_block_size, min_compress_block_size"]),
+        lambda: "ADD INDEX " + r.pick(["i", "idx"]) + " " + r.pick(["a", "(a, b)", "lower(name)"]) + " TYPE "
+                + r.pick(["minmax", "set(10)", "bloom_filter"]) + r.pick(["", " GRANULARITY 1"]) + " AFTER " + r.pick(["j", "idx0"]),
+        lambda: "MATERIALIZE INDEX i IN PARTITION ID " + r.pick(["'1'", "'202001'"]),
+        lambda: "UPDATE " + r.pick(COLS) + " = " + expr(r, 3, False) + " IN PARTITION ID " + r.pick(["'x'", "'1-2'"])
+                + " WHERE " + expr(r, 3, False),
+        lambda: "APPLY PATCHES" + inpart,
+        lambda: "ADD PROJECTION " + r.pick(["p", "proj"]) + " (" + r.pick(["", "WITH 1 AS w ", "WITH 1 AS w, 2 AS v "]) + "SELECT "
+                + r.pick(["a, b ORDER BY a, b", "a, b, c ORDER BY (a, b)", "a ORDER BY a", "a, count() GROUP BY a", "a, b GROUP BY a, b"]) + ")",
+        lambda: "MODIFY ORDER BY " + r.pick(["a", "(a)", "(a, b)", "toDate(ts)"]),
     ]
     return forms[x % len(forms)]()
 
@@ -1110,6 +1163,8 @@ def gen_alter(r):
         s += " " + ", ".join("(" + c + ")" for c in cmds)
     else:
         s += " " + ", ".join(cmds)
+    if r.p(1, 16):
+        s += " FORMAT Null"
     if r.p(1, 10):
         s += " SETTINGS mutations_sync = 2"
     return s
